@@ -2422,6 +2422,10 @@ pub mod parse_errors {
 /// `string.rs` and the comment wrapping that uses it (`src/verif_hooks/strings.rs`).
 pub mod strings;
 
+/// The width budgets of function signatures, where clauses, control-flow headers and
+/// assignments (`src/verif_hooks/budgets.rs`).
+pub mod budgets;
+
 /// The token-stream scanners of `macros.rs` and `parse/macros/mod.rs`: the matcher formatter
 /// (`MacroArgParser`, `format_macro_args`), `replace_names`, the branch splitter
 /// (`MacroParser`), `macro_style`, `parse_macro_args`, `rewrite_macro_def` and `rewrite_macro`.
